@@ -38,6 +38,19 @@ def fw(fn):
             FCOUNT["n"] += 1
             return fn(*a, **k)
     return w
+def gw(fn):
+    # a foreign decorator that sets __wrapped__ but does NOT merge the __dict__ of the wrapped function
+    if inspect.iscoroutinefunction(fn):
+        @functools.wraps(fn, updated=())
+        async def w(*a, **k):
+            FCOUNT["n"] += 1
+            return await fn(*a, **k)
+    else:
+        @functools.wraps(fn, updated=())
+        def w(*a, **k):
+            FCOUNT["n"] += 1
+            return fn(*a, **k)
+    return w
 def _out(received):
     LOG.append(("body", received))
     if RES["mode"] == "raise":
@@ -77,6 +90,8 @@ def stacks(tier):
         out.add(b)
         for pos in range(len(b) + 1):
             out.add(b[:pos] + "F" + b[pos:])
+            if len(b) <= 2 or tier == "thorough":
+                out.add(b[:pos] + "G" + b[pos:])   # G: foreign functools.wraps(fn, updated=()) decorator
         if tier == "thorough" and len(b) >= 2:
             for p1, p2 in itertools.combinations(range(len(b) + 1), 2):
                 s = list(b)
@@ -93,6 +108,8 @@ def render_callable(kind, sig, stack, contracts):
     for ch in stack:
         if ch == "F":
             lines.append("@fw")
+        elif ch == "G":
+            lines.append("@gw")
         elif contracts:
             lines.append(CONTRACTS[ch].format(i=i))
             i += 1
@@ -217,7 +234,7 @@ def count_checkers(fn):
 
 def check_callable(item, acc):
     kind, sig, stack = item["kind"], item["sig"], item["stack"]
-    feats = {"family": "callable", "kind": kind, "sig": sig, "stack": stack, "foreign_pos": stack.find("F")}
+    feats = {"family": "callable", "kind": kind, "sig": sig, "stack": stack, "foreign_pos": max(stack.find("F"), stack.find("G")), "foreign_merges_dict": "G" not in stack}
     key = json.dumps(item, sort_keys=True)
     src_c = HDR + render_callable(kind, sig, stack, True)
     src_b = HDR + render_callable(kind, sig, stack, False)
